@@ -26,6 +26,11 @@ CHECKS = {
         text="TLC proves on all inputs up to the bound and all span splittings that the incremental position update equals the position defined from the input alone, and each explored step is replayed on the real Position.Advance; token events of real lexers on all inputs up to the bound are accepted step by step by Trace_LexStream (value = input bytes at offset, increasing non-overlapping offsets, one EOF at the end, line/column = PosOf(offset), filename, lossless concatenation when nothing is dropped).",
         note="Only successful lexes are judged. Generated lexers' streams are judged by the same trace specification inside C05.",
         ref="4/C04, 3.3, 3.7"),
+    "C05": dict(
+        technique="TLA+ spec MC_GenLexer (StatefulLexer with the possessive matcher in lock step with the backtracking matcher; tolerated set computed from Regex.tla) model-checked by TLC; real `participle gen lexer` output compiled and compared with the real runtime lexer on every non-tolerated run; generated lexers' token events validated by Trace_LexStream",
+        text="TLC runs the generated-lexer model and the runtime-lexer model in lock step for every definition of the supported-class family and every input up to the bound, checks that they coincide until the first step at which some rule matches differently under possessive and backtracking semantics (the documented tolerated difference), and prints each run; the harness generates, compiles (a compile failure is a violation) and runs the real generated lexers: symbol table, tokens, positions, elision, EOF and error position must equal the real runtime lexer's on every non-tolerated run; no panic on any run.",
+        note="'Compiles' is decided by go build. Runtime lexer bound to the specification by C03. Exhaustive over inputs within the bound; definitions are curated operator-boundary cases plus seeded random ones.",
+        ref="4/C05, 3.4, 3.6"),
     "C16": dict(
         technique="TLA+ spec StatefulLexer (Expand, Symbols, RoundTripStable invariant) checked by TLC; marshalled documents compared with the specification's serialised form; MC_StatefulLexer expectations replayed against definitions rebuilt from both JSON routes",
         text="TLC checks that include expansion is idempotent and the symbol table stable when expanded rules are fed back, and prints the serialised form and the expected streams; the harness compares json.Marshal(def) and json.Marshal(def.Rules()) with that form (order, byte-exact names and patterns, action kinds and targets), and replays all inputs up to the bound on lexer.New(unmarshal(...)) for both routes, comparing streams and symbol tables with the original.",
